@@ -13,7 +13,7 @@
    py: attribute lookup `a.b.c`: followed only through objects whose attribute table is static — modules,
        classes, ufuncs ([EStatic key]); an attribute of any other value is not decided statically ([EOpaque]).
    py: call `f(a1..an, k1=.., ..)` of a function defined in the package: CPython's argument binding rules. *)
-From Coq Require Import List String Bool Arith.
+From Coq Require Import List String Bool Arith ZArith.
 Import ListNotations.
 Local Open Scope string_scope.
 
@@ -247,3 +247,30 @@ Definition stats (p : program) : list nat :=
   [List.length (refs p); count_kind p 0; count_kind p 1; count_kind p 2; count_kind p 3; count_kind p 4;
    List.length (filter (is_arity_checked p) (refs p)); List.length (p_modules p);
    List.length (flat_map m_scopes (p_modules p)); List.length (p_ext p)].
+
+(* ---------------------------------------------------------------- dynamic part: the predicate
+   A run = (tag of the re-presentation of the input, arguments and defaults bit-for-bit unchanged by the call,
+   encoding of the result as a list of integers: IEEE bit patterns of the numbers, shapes, tags). *)
+Fixpoint zlist_eqb (a b : list Z) : bool :=
+  match a, b with
+  | [], [] => true
+  | x :: a', y :: b' => Z.eqb x y && zlist_eqb a' b'
+  | _, _ => false
+  end.
+
+(* the boolean predicate of the dynamic part: 0 = holds; 20 + tag = the call with that re-presentation
+   modified an argument or a default; tag = its result differs from the base result *)
+Fixpoint dyn_first_bad (r0 : list Z) (runs : list (nat * bool * list Z)) : nat :=
+  match runs with
+  | [] => 0
+  | (t, unchanged, r) :: rest =>
+      if negb unchanged then 20 + t
+      else if negb (zlist_eqb r r0) then (if Nat.eqb t 0 then 19 else t)
+      else dyn_first_bad r0 rest
+  end.
+Definition dyn_holds (runs : list (nat * bool * list Z)) : nat :=
+  match runs with
+  | [] => 0
+  | (_, _, r0) :: _ => dyn_first_bad r0 runs
+  end.
+
